@@ -86,12 +86,13 @@ pub fn canonical_query(pairs: &[(String, String)], skip: Option<&str>) -> String
     enc.iter().map(|(n, v)| format!("{n}={v}")).collect::<Vec<_>>().join("&")
 }
 
-/// Trimall(): strip leading/trailing blanks, convert sequential spaces to a single space
+/// Trimall(): "remove any white space before and after the header value and convert sequential spaces to a single space" -
+/// spaces, literally: a tab inside a value is kept (aws-sigv4 reads the rule the same way)
 pub fn trimall(v: &str) -> String {
     let mut out = String::new();
     let mut prev_space = false;
     for c in v.trim_matches(|c| c == ' ' || c == '\t').chars() {
-        if c == ' ' || c == '\t' {
+        if c == ' ' {
             if !prev_space {
                 out.push(' ');
             }
